@@ -384,7 +384,8 @@ def loopIdx (f : Nat → V → Res (Option (List String))) : Nat → List V → 
       | .error e => .error e
       | .ok qs => .ok (ps ++ qs)
 
-/-- does the item match any of the array filters (as document {identifier: item})? -/
+/-- does the item match any of the given array filters (as document {identifier: item})?
+    (`resolve` passes the filters that bind the identifier.) -/
 def anyFilter (sch : SchemaEval) (identifier : String) (item : V) : List Doc → Res Bool
   | [] => .ok false
   | f :: r =>
@@ -392,6 +393,11 @@ def anyFilter (sch : SchemaEval) (identifier : String) (item : V) : List Doc →
     | .error e => .error e
     | .ok true => .ok true
     | .ok false => anyFilter sch identifier item r
+
+/-- resolve.go: an array filter BINDS the identifier if one of its keys is the identifier or starts
+    with identifier + ".". -/
+def bindsId (identifier : String) (f : Doc) : Bool :=
+  f.any fun (k, _) => k == identifier || k.startsWith (identifier ++ ".")
 
 /-- resolve.go: expand positional operators against the document as it is when the operator
     invocation starts; returns the concrete paths in callback order. Fuel = number of `$`. -/
@@ -414,10 +420,11 @@ def resolve (sch : SchemaEval) : Nat → String → Doc → List Doc → Res (Li
               | .error e => .error e
               | .ok ps => .ok (some ps)) 0 array
           else
-            let bound := arrayFilters.any fun f => f.any fun (k, _) => k == identifier || k.startsWith (identifier ++ ".")
-            if !bound then .error .err else
+            -- only the filters that bind the identifier take part; none → error
+            let filters := arrayFilters.filter (bindsId identifier)
+            if filters.isEmpty then .error .err else
             loopIdx (fun i item =>
-              match anyFilter sch identifier item arrayFilters with
+              match anyFilter sch identifier item filters with
               | .error e => .error e
               | .ok false => .ok none
               | .ok true =>
